@@ -29,6 +29,7 @@ type specCtx struct {
 	scopePkg  *types.Package
 	depth     int
 	where     string
+	limited   string // name of the recursive spec function whose definitional axiom is being built
 }
 
 func (sc *specCtx) with(st *State) *specCtx {
@@ -712,6 +713,18 @@ func (ex *Exec) specCall(sc *specCtx, e *ast.CallExpr) (Val, bool) {
 	}
 	// pure functions
 	if pd, ok := ex.prog.contracts.Pures[fname]; ok {
+		if sc.limited == fname {
+			// recursive occurrence inside the function's own definitional axiom: the limited copy (no further unfolding)
+			args := ex.specArgs(sc, e.Args)
+			pk := ex.pkgTypes(pd.Pkg)
+			rt := ex.lookupType(pk, pd.ResType)
+			var ts []*T
+			for i := range pd.ParamName {
+				pt := ex.lookupType(pk, pd.ParamType[i])
+				ts = append(ts, ex.coerceSpec(args[i], pt).T)
+			}
+			return Val{App("P."+pd.Name+"$lim", sortOf(rt), ts...), rt}, true
+		}
 		return ex.specPure(sc, pd, e)
 	}
 	ex.specErr(sc, "unknown spec function %s", fname)
@@ -771,7 +784,8 @@ func (ex *Exec) specPure(sc *specCtx, pd *PureDef, e *ast.CallExpr) (Val, bool) 
 		ex.declare(name, sorts, sortOf(rt))
 		if pd.Rec {
 			// definitional axiom
-			inner := &specCtx{ex: ex, st: sc.st, vars: map[string]Val{}, stateVars: map[string]stateVar{}, pkg: pk, depth: 20, where: pd.Line}
+			inner := &specCtx{ex: ex, st: sc.st, vars: map[string]Val{}, stateVars: map[string]stateVar{}, pkg: pk, depth: 20, where: pd.Line, limited: pd.Name}
+			ex.declare(name+"$lim", sorts, sortOf(rt))
 			var bvs []string
 			var bts []*T
 			for i, n := range pd.ParamName {
@@ -796,7 +810,8 @@ func (ex *Exec) specPure(sc *specCtx, pd *PureDef, e *ast.CallExpr) (Val, bool) 
 			}
 			body, _ := ex.specEval(inner, pd.Body.Expr)
 			app := App(name, sortOf(rt), bts...)
-			ex.declAxiom(name+"$def", Forall(bvs, Eq(app, body.T), app))
+			// "limited function" encoding: one unfolding per term that names the function itself
+			ex.declAxiom(name+"$def", Forall(bvs, And(Eq(app, body.T), Eq(App(name+"$lim", sortOf(rt), bts...), app)), app))
 		}
 	}
 	return Val{App(name, sortOf(rt), ts...), rt}, true
